@@ -94,8 +94,12 @@ REGISTRY["C04"]["theorems"] += S("C04", "C04_push_back", "C04_push_front", "C04_
 REGISTRY["C07"]["theorems"] += S("C07", "C07_get", "C07_front", "C07_back", "C07_nth_back", "C07_make_contiguous")
 REGISTRY["C11"]["theorems"] += S("C11", "C11_swap_ok", "C11_swap_panics_i", "C11_swap_panics_j", "C11_range_ok", "C11_range_panics")
 REGISTRY["C08"]["theorems"] += S("C08", "C08_over_range", "C08_whole")
-REGISTRY["C09"]["theorems"] += S("C09", "C09_new", "C09_next", "C09_next_back", "C09_len")
+REGISTRY["C09"]["theorems"] += S("C09", "C09_new", "C09_next", "C09_next_back", "C09_len", "C09_as_mut_slices", "C09_as_slices")
 REGISTRY["C10"]["theorems"] += S("C09", "C10_forget_safe")
+REGISTRY["C09"]["theorems"] += S("C09", "C09_drop")
+REGISTRY["C01"]["theorems"] += S("C09", "C01_drain")
+REGISTRY["C05"]["theorems"] += S("C09", "C05_drain_drop")
+REGISTRY["C20"]["theorems"] += S("C09", "C20_drain")
 REGISTRY["C20"]["theorems"] += S("C20", "C20_push_back", "C20_push_front", "C20_pop_back", "C20_pop_front", "C20_swap", "C20_remove", "C20_truncate", "C20_make_contiguous")
 
 # properties about ownership / memory safety: the thorough tier also runs a sample of their cases under Miri
